@@ -35,7 +35,12 @@ def build(tier, seed):
         ch = stmt(var, r'let c = match c \{', 'Var::parse char conversion')
         tr = stmt(mod, r'let translated = match \(signed, size\) \{', 'Enum::codegen repr translation')
         as_int = extract(rd('clang.rs'), r'^    pub\(crate\) fn as_int\(&self\) -> Option<i64> \{', what='EvalResult::as_int')
-        h = open(os.path.join(G, 'harness', 'c05.rs')).read().replace('/*AS_INT*/', as_int)
+        glf = extract(var, r'^fn get_integer_literal_from_cursor\(', what='get_integer_literal_from_cursor')
+        mv = re.search(r'\n([ \t]*let mut val = .*?)\n\s*val\.map\(\|val\| \{', var, flags=re.S)
+        if not mv or 'cursor.evaluate()' not in mv.group(1):
+            raise SliceError('Var::parse: `let mut val = ..` statement of the integer arm not found')
+        vstmt = mv.group(1)
+        h = open(os.path.join(G, 'harness', 'c05.rs')).read().replace('/*AS_INT*/', as_int).replace('/*GET_LITERAL_FN*/', glf).replace('/*VALUE_STMT*/', vstmt)
         h = (h.replace('/*INT_RS*/', intrs).replace('/*MACRO_TYPE_VARIATION*/', mtv).replace('/*DEFAULT_MACRO_CONSTANT_TYPE*/', dmct)
              .replace('/*LITERAL_STMT*/', lit).replace('/*CHAR_STMT*/', ch).replace('/*TRANSLATE_STMT*/', tr))
         kern = Kernel(name='constants')
@@ -44,14 +49,15 @@ def build(tier, seed):
             H('macro_constant_kind_holds_value_and_is_narrowest', desc='all i64 x options: kind holds value, sign rule, narrowest allowed', sample={'value': 'any i64', 'default': 'signed|unsigned', 'fit': 'bool'}),
             H('macro_constant_literal_denotes_the_value', desc='kind selection composed with the literal choice', sample={'value': 'any i64'}),
             H('literal_for_every_kind', desc='literal choice for 14 sized integer kinds, any value the kind holds', sample={'kind': '14 kinds', 'value': 'any i64 that fits'}),
-            H('char_macro_value_preserved', desc='char-literal macro byte value preserved (Raw 0..=255, ASCII Char)', sample={'raw': '0..=255'}),
+            H('char_macro_value_preserved', desc='char-literal macro: any character constant cexpr can hand back (any u64 raw value, any char) is emitted with its value or skipped - never a panic, never another value', sample={'raw': 'any u64', 'char': 'any char'}, may_unsat=('character constant that does not fit is skipped',)),
             H('const_variable_value_from_libclang_not_truncated', desc='EvalResult::as_int over a stub CXEvalResult (any 64-bit value, signed/unsigned)', sample={'value': 'any 64-bit', 'unsigned': 'bool'}),
+            H('const_variable_takes_the_value_clang_computed', desc='Var::parse integer arm (`let mut val = ..`) with the real get_integer_literal_from_cursor: whenever libclang evaluates the initializer the variable gets that value, whatever the initializer tokens evaluate to', sample={'initializer': '<= 2 nested nodes of any kind', 'token value': 'any i64 or none', 'clang value': 'any 64-bit or none'}),
             H('enum_repr_translation_keeps_width_and_sign', desc='(signed,size) -> IntKind keeps width and sign; unknown sizes -> I32', sample={'signed': 'bool', 'size': 'any usize'}),
         ]
-        kern.encoded = [enc('ir/var.rs', 'fn default_macro_constant_type', dmct), enc('ir/int.rs', 'whole file', rd('ir/int.rs')), enc('codegen/mod.rs', 'Var::codegen: literal choice statement', lit),
+        kern.encoded = [enc('ir/var.rs', 'Var::parse: value statement of the integer arm', vstmt), enc('ir/var.rs', 'fn get_integer_literal_from_cursor', glf), enc('ir/var.rs', 'fn default_macro_constant_type', dmct), enc('ir/int.rs', 'whole file', rd('ir/int.rs')), enc('codegen/mod.rs', 'Var::codegen: literal choice statement', lit),
                         enc('ir/var.rs', 'Var::parse: char conversion statement', ch), enc('codegen/mod.rs', 'Enum::codegen: repr translation statement', tr), enc('codegen/mod.rs', 'enum MacroTypeVariation', mtv), enc('clang.rs', 'EvalResult::as_int', as_int)]
         kern.stubs = ['BindgenContext::options() with the two option fields read', 'helpers::ast_ty::{int_expr,uint_expr}: return the literal value instead of tokens', 'cexpr CChar: two-variant stand-in', 'warn!: no-op', 'clang_EvalResult_{isUnsignedInt,getAsUnsigned,getAsLongLong,getAsInt}: environment stubs per libclang documentation (getAsInt truncates to int)']
-        kern.assumptions = ['cexpr returns CChar::Raw only for single-byte values (<= 255) and CChar::Char only for ASCII']
+        kern.assumptions = ['libclang evaluation of an initializer (clang_Cursor_Evaluate) yields the C value; the value cexpr computes from the tokens is an arbitrary i64 (untyped wrapping arithmetic)', '(the earlier assumption that cexpr returns only single-byte character constants was wrong - finding F17 - and is gone)']
         kern.bounds = ['all i64 values; all option combinations; no loops']
         return [kern]
     try:
